@@ -21,7 +21,9 @@ import (
 
 	"google.golang.org/genproto/googleapis/api/annotations"
 	"google.golang.org/grpc"
+	"google.golang.org/grpc/codes"
 	"google.golang.org/grpc/stats"
+	"google.golang.org/grpc/status"
 	"google.golang.org/protobuf/proto"
 	"google.golang.org/protobuf/reflect/protoreflect"
 	"google.golang.org/protobuf/types/dynamicpb"
@@ -406,7 +408,25 @@ func cancelMux(c CCase, hs *hstate) *larking.Mux {
 		}
 		return nil
 	}
-	if err := mux.VerifRegisterService(w.ServiceDesc("un.C15", nil, stream), nil); err != nil {
+	// the unary method: the handler holds the call without touching the response (a slow computation)
+	unary := func(ctx context.Context, fm string, req *dynamicpb.Message) (proto.Message, error) {
+		defer close(hs.exited)
+		go func() {
+			<-ctx.Done()
+			close(hs.ctxDone)
+		}()
+		hs.blocked <- "idle"
+		select {
+		case <-ctx.Done():
+		case <-time.After(12 * time.Second):
+		}
+		hs.released <- ctx.Err()
+		if ctx.Err() == nil {
+			return nil, status.Error(codes.Aborted, "the call was never cancelled")
+		}
+		return nil, status.FromContextError(ctx.Err()).Err()
+	}
+	if err := mux.VerifRegisterService(w.ServiceDesc("un.C15", unary, stream), nil); err != nil {
 		panic(err)
 	}
 	return mux
@@ -479,7 +499,7 @@ func CheckCancel(c CCase) (vs []evid.Violation, verified bool) {
 		half := gz[:len(gz)*c.MsgsFirst/4]
 		fmt.Fprintf(conn, "%x\r\n%s\r\n", len(half), half)
 		doCancel = func() { conn.Close() }
-	case "http1", "grpcweb1", "grpcwebtext1":
+	case "http1", "http1gzlate", "grpcweb1", "grpcwebtext1":
 		conn, err := net.Dial("tcp", real.Addr)
 		if err != nil {
 			return fail("setup", "dial", "dial: %v", err)
@@ -487,9 +507,16 @@ func CheckCancel(c CCase) (vs []evid.Violation, verified bool) {
 		defer conn.Close()
 		var ct string
 		var one []byte
-		if c.Transport == "http1" {
+		if c.Transport == "http1" || c.Transport == "http1gzlate" {
 			ct = "application/json"
 			one = []byte("{}")
+			if c.Transport == "http1gzlate" {
+				// a compressed body of unknown length whose terminating chunk arrives in a later segment than
+				// its last data chunk (a client streaming a compressed body): the server must still have read
+				// the body to its end, or net/http never watches the connection for the disconnect
+				ct += "\r\nContent-Encoding: gzip"
+				one = drive.Gzip(one)
+			}
 			// HTTP/1.1 is not full duplex: a handler that replies before the
 			// request body ended blocks in the reply, so Recv cases use the
 			// client-streaming method (no reply before the blocking Recv).
@@ -509,7 +536,10 @@ func CheckCancel(c CCase) (vs []evid.Violation, verified bool) {
 				path = "/un.C15/ClientS"
 			}
 		}
-		if c.PathSlash && c.Transport == "http1" {
+		if c.Point == "unary-idle" {
+			path = "/c15/unary"
+		}
+		if c.PathSlash && (c.Transport == "http1" || c.Transport == "http1gzlate") {
 			path += "/"
 		}
 		fmt.Fprintf(conn, "POST %s HTTP/1.1\r\nHost: x\r\nContent-Type: %s\r\nTransfer-Encoding: chunked\r\n\r\n", path, ct)
@@ -518,13 +548,16 @@ func CheckCancel(c CCase) (vs []evid.Violation, verified bool) {
 		if c.Point == "before-first" {
 			n = 0
 		}
-		if c.Point == "send-blocked" || c.Point == "between" {
+		if c.Point == "send-blocked" || c.Point == "between" || c.Point == "unary-idle" {
 			n = 1
 		}
 		for i := 0; i < n; i++ {
 			writeChunk(one)
 		}
-		if c.Point == "send-blocked" || c.Point == "between" {
+		if c.Point == "send-blocked" || c.Point == "between" || c.Point == "unary-idle" {
+			if c.Transport == "http1gzlate" {
+				time.Sleep(60 * time.Millisecond)
+			}
 			fmt.Fprintf(conn, "0\r\n\r\n") // request complete, the server streams
 			if c.Point == "between" {
 				// read the response head so that the handler has really sent
@@ -565,7 +598,7 @@ func CheckCancel(c CCase) (vs []evid.Violation, verified bool) {
 	doCancel()
 	select {
 	case err := <-hs.released:
-		if c.Point == "between" {
+		if c.Point == "between" || c.Point == "unary-idle" {
 			break // the handler was idle: only the context cancellation is asserted
 		}
 		if err == nil || err == io.EOF && c.Point != "recv-blocked" && c.Point != "before-first" {
@@ -595,13 +628,18 @@ func CheckCancel(c CCase) (vs []evid.Violation, verified bool) {
 func TestPropCancel(t *testing.T) {
 	rapid.Check(t, func(t *rapid.T) {
 		c := CCase{
-			Transport: rapid.SampledFrom([]string{"grpc", "grpc", "http1", "grpcweb1", "grpcwebtext1", "http1gz"}).Draw(t, "transport"),
+			Transport: rapid.SampledFrom([]string{"grpc", "grpc", "http1", "grpcweb1", "grpcwebtext1", "http1gz", "http1gzlate"}).Draw(t, "transport"),
 			Point:     rapid.SampledFrom([]string{"recv-blocked", "send-blocked", "between", "before-first"}).Draw(t, "point"),
 			MsgsFirst: rapid.IntRange(1, 3).Draw(t, "msgsFirst"),
 		}
 		c.Mechanism = "close"
 		c.Opts = rapid.SampledFrom([]int{0, 0, 1, 2, 3}).Draw(t, "opts")
 		c.PathSlash = c.Transport == "http1" && rapid.Bool().Draw(t, "pathSlash")
+		if c.Transport == "http1gzlate" || c.Transport == "http1" && rapid.IntRange(0, 3).Draw(t, "unaryIdle") == 0 {
+			// a complete (for http1gzlate: compressed) request to the unary method, whose handler holds the
+			// call without touching the response
+			c.Point = "unary-idle"
+		}
 		if c.Transport == "http1gz" {
 			c.Point = "recv-blocked" // gzip-encoded HttpBody upload cut in the middle of the compressed stream
 		}
